@@ -6,7 +6,7 @@
    are skipped by `step` itself, illegal random outcomes are rejected by `step` itself, so no
    hypothesis on the history is needed.  wf c  :=  0 < width /\ 0 < height. *)
 From Coq Require Import ZArith List Bool.
-From Mesa Require Import Common.ListX Generated.Tables Model.LegacyGrid Proofs.LegacyGridProofs Proofs.LegacyGridSim Proofs.LegacyGridRefine.
+From Mesa Require Import Common.ListX Generated.Tables Model.LegacyGrid Proofs.LegacyGridProofs Proofs.LegacyGridSim Proofs.LegacyGridRefine Proofs.LegacyGridBridge.
 Import ListNotations.
 Open Scope Z_scope.
 
@@ -228,6 +228,75 @@ Theorem C08_run_case_is_step : forall k i o,
 Proof. exact run_case_is_step. Qed.
 Print Assumptions C08_run_case_is_step.
 
+(* ================================================================== code-level T1 (round 2)
+   The definitions gen_* are regenerated from mesa/space.py on every run (harness/tables/legacy_space_code.py):
+   pure functions by the pyexpr translator, method bodies as lg_stmt lists run by the interpreter of
+   Proofs/LegacyGridBridge.v (src_place / src_remove / src_grid_move / src_move compose them the way the classes do). *)
+
+(* --- every model function named here IS the function regenerated from the source *)
+Theorem C08_source_is_model :
+  (forall c p, out_of_bounds c p = gen_out_of_bounds (c_w c) (c_h c) p) /\
+  (forall c p, torus_adj c p = gen_torus_adj (c_w c) (c_h c) (c_torus c) p) /\
+  (forall c p q, dist2 c p q = gen_distance_squared (c_w c) (c_h c) (c_torus c) p q) /\
+  (forall s p, is_cell_empty s p = gen_is_cell_empty (grid s) p) /\
+  (forall c s a smp out, move_to_empty c s a smp out = move_to_empty_src c s a smp out) /\
+  (forall c cur cells out,
+     (memb coord_eqb out cells && forallb (fun p => dist2 c out cur <=? dist2 c p cur) cells) =
+     memb coord_eqb out (gen_closest (c_w c) (c_h c) (c_torus c) cur cells)) /\
+  (forall c s a p, place c s a p = src_place c s a p) /\
+  (forall c s a, remove c s a = src_remove c s a) /\
+  (forall c s a p, grid_move_agent c s a p = src_grid_move c s a p) /\
+  (forall c s a p, move_agent c s a p = src_move c s a p).
+Proof. exact source_is_model. Qed.
+Print Assumptions C08_source_is_model.
+
+(* --- C08_torus_wrap / C08_bounded_reject about the translated torus_adj itself *)
+Theorem C08_torus_adj_of_source : forall w h torus p,
+  0 < w -> 0 < h ->
+  (torus = true -> gen_torus_adj w h torus p = Some (fst p mod w, snd p mod h) /\
+                   gen_out_of_bounds w h (fst p mod w, snd p mod h) = false) /\
+  (torus = false -> gen_out_of_bounds w h p = true -> gen_torus_adj w h torus p = None) /\
+  (gen_out_of_bounds w h p = false -> gen_torus_adj w h torus p = Some p).
+Proof. exact torus_adj_of_source. Qed.
+Print Assumptions C08_torus_adj_of_source.
+
+(* --- C08_closest_is_nearest about the translated selection loop and the translated _distance_squared *)
+Theorem C08_closest_of_source : forall w h torus cur cells out,
+  0 < w -> 0 < h ->
+  (In out (gen_closest w h torus cur cells) <->
+   In out cells /\ forall p, In p cells -> gen_distance_squared w h torus out cur <= gen_distance_squared w h torus p cur) /\
+  (forall p p', gen_torus_adj w h torus p = Some p' ->
+                gen_distance_squared w h torus p' cur = gen_distance_squared w h torus p cur).
+Proof. exact closest_of_source. Qed.
+Print Assumptions C08_closest_of_source.
+
+(* --- the headline for the movers, about the translated bodies composed as the classes compose them:
+       invariant kept, lands on the wrapped target, and ATOMIC when it raises (C18 site move_agent) *)
+Theorem C08_move_of_source : forall c n s a pa p s' r,
+  wf c -> Agree c s -> pos s a = Some pa -> src_move c s a p = (s', r) ->
+  Agree c s' /\
+  (r = Ok [] -> exists p', gen_torus_adj (c_w c) (c_h c) (c_torus c) p = Some p' /\ pos s' a = Some p' /\
+                           forall b, b <> a -> pos s' b = pos s b) /\
+  (forall e, r = Err e -> obs_state c n s' = obs_state c n s) /\
+  (r = Ok [] \/ r = Err E_OOB \/ r = Err E_CELL_NOT_EMPTY).
+Proof. exact move_of_source. Qed.
+Print Assumptions C08_move_of_source.
+
+Theorem C08_place_remove_of_source : forall c s a,
+  Agree c s ->
+  (forall p, pos s a = None -> out_of_bounds c p = false -> Agree c (fst (src_place c s a p))) /\
+  (forall p, pos s a = Some p -> Agree c (fst (src_remove c s a)) /\ snd (src_remove c s a) = Ok [] /\
+                                pos (fst (src_remove c s a)) a = None).
+Proof. exact place_remove_of_source. Qed.
+Print Assumptions C08_place_remove_of_source.
+
+(* --- the glue that is checked verbatim (objects, RNG calls, warnings, f-strings): swap_pos, the rest of
+       move_to_empty and of move_agent_to_one_of *)
+Theorem C08_source_skeletons :
+  gen_swap_pos_skeleton_ok = true /\ gen_move_to_empty_skeleton_ok = true /\ gen_move_one_of_skeleton_ok = true.
+Proof. exact skeletons_ok. Qed.
+Print Assumptions C08_source_skeletons.
+
 (* ------------------------------------------------------------------ non-vacuity *)
 Definition ex_cfg_s : cfg := {| c_w := 3; c_h := 2; c_torus := true; c_multi := false |}.
 Definition ex_cfg_m : cfg := {| c_w := 3; c_h := 2; c_torus := false; c_multi := true |}.
@@ -322,4 +391,15 @@ Example C08_example_place_remove :
   nth_error ex_hist 3 = Some (Move 1 (4, 3)) /\
   nth_error (run_case {| k_cfg := ex_cfg_s; k_n := 2; k_ops := ex_hist |}) 3 =
     Some [-1; 2; -8; 0; 65537; -7; 1; 1; 0; 0; 1; 2; 0; 0; -7; 1; 65536; 131072; 131073; -7; 0; 1; 1; 0; 1; 1].
+Proof. vm_compute. repeat split; congruence. Qed.
+
+(* the C08_*_of_source theorems: the translated code runs (vm_compute through the interpreter) *)
+Example C08_example_source :
+  let s := run ex_cfg_s init [Place 1 (0, 0); Place 2 (1, 1)] in
+  snd (src_move ex_cfg_s s 1 (1, 1)) = Err E_CELL_NOT_EMPTY /\
+  snd (src_move ex_cfg_s s 1 (-7, 9)) = Ok [] /\ pos (fst (src_move ex_cfg_s s 1 (-7, 9))) 1 = Some (2, 1) /\
+  snd (src_move ex_cfg_m (run ex_cfg_m init [Place 1 (0, 0)]) 1 (3, 0)) = Err E_OOB /\
+  gen_closest 5 4 true (0, 0) [(9, 0); (2, 0); (-11, 4)] = [(9, 0); (-11, 4)] /\
+  gen_torus_adj 3 2 true (-7, 9) = Some (2, 1) /\ gen_torus_adj 3 2 false (3, 0) = None /\
+  snd (src_place ex_cfg_s s 3 (1, 1)) = Err E_CELL_NOT_EMPTY /\ snd (src_remove ex_cfg_s s 2) = Ok [].
 Proof. vm_compute. repeat split; congruence. Qed.
